@@ -38,7 +38,7 @@ RULE = ("part A: one case = one entry point (constructor, from_sequence, pack_se
         "distinct = (entry point / op, ragged?, layout, sizes); non-trivial = something was stored or refused for raggedness")
 ASSUMPTIONS = ["present rows of user-supplied Arrow input hold non-null lists (the property's domain: rows are missing, empty or non-empty)"]
 CORRESPONDENCE = "m_init (validator) and m_step (Steps.v) vs the real entry points and operations"
-LAYOUTS = [l for l in gen.LAYOUTS if l != "missing_hidden"] + ["history"]
+LAYOUTS = list(gen.LAYOUTS) + ["history"]
 
 
 class Born:
